@@ -32,3 +32,39 @@ def MA(self):
 
 # a "very label-like attribute" (the edge case `_add_suffix_to_label` searches `dir` for)
 MA.a0 = None
+
+
+from concurrent.futures import Executor, Future, ProcessPoolExecutor  # noqa: E402
+
+
+class Manual(Executor):
+    """an executor whose futures stay pending until the harness says so"""
+
+    def __init__(self):
+        self.pending = []
+
+    def submit(self, fn, *args, **kwargs):
+        f = Future()
+        self.pending.append((f, fn, args, kwargs))
+        return f
+
+    def finish(self):
+        for f, fn, args, kwargs in self.pending:
+            try:
+                f.set_result(fn(*args, **kwargs))
+            except BaseException as e:  # noqa: BLE001
+                f.set_exception(e)
+        self.pending = []
+
+
+class Recording(ProcessPoolExecutor):
+    """a process pool that keeps the futures it handed out (the spent copy of a composite is reachable through them)"""
+
+    def __init__(self, *args, **kwargs):
+        super().__init__(*args, **kwargs)
+        self.handed_out = []
+
+    def submit(self, *args, **kwargs):
+        f = super().submit(*args, **kwargs)
+        self.handed_out.append(f)
+        return f
